@@ -69,13 +69,15 @@ def shape_key(s):
 
 MIX_LL = ["ll", "ll_i32", "ll_hperm", "ll_hrev", "ll_rrev", "ll_c_none", "ll_c_miss", "ll_c_hit",
           "lla", "lla_perm", "lla_c_none", "lla_c_miss", "lla_c_hit", "ped_none", "ped_miss", "ped_hit"]
-SITE = {"ll": "assemble.likelihood.log_likelihood", "ll_c": "assemble.likelihood.log_likelihood_cached",
+MIX_EMBEDDED = ["ll_padend", "ll_padstart", "lls_padend", "lls_padstart", "ll_c_padmiss", "ll_c_padhit", "lla_padend", "lla_padstart", "ped_padend",
+                "ll_pool", "lla_pool", "lla_pool_unsorted", "ped_pool"]
+SITE = {"lls": "assemble.likelihood.log_likelihood_structural_change", "ll": "assemble.likelihood.log_likelihood", "ll_c": "assemble.likelihood.log_likelihood_cached",
         "lla": "calling.likelihood.log_likelihood_alleles", "lla_c": "calling.likelihood.log_likelihood_alleles_cached",
         "ped": "pedigree.likelihood.log_likelihood_alleles_cached"}
 
 
 def site_of(name):
-    for pre in ("ll_c", "lla_c", "lla", "ped", "ll"):
+    for pre in ("ll_c", "lla_c", "lla", "lls", "ped", "ll"):
         if name.startswith(pre):
             return SITE[pre]
     return name
@@ -96,7 +98,9 @@ def compare_mix(ck, s, o, mode, stats):
     if "hn" in s and "tiled" in o:
         for k, hn in enumerate(s["hn"]):
             big = sum(int(x) ** 16 for x in hn)
-            for nm in ("tiled", "tiled_struct"):
+            for nm in ("tiled", "tiled_struct", "lla_tiled", "ped_tiled"):
+                if nm not in o:
+                    continue
                 v = o[nm][k]
                 stats["evals"] += 1
                 if big == 0:
@@ -108,12 +112,12 @@ def compare_mix(ck, s, o, mode, stats):
                 if not ok:
                     ck.violation("mixture-long-locus", {"mode": mode, "state": {k2: s[k2] for k2 in ("P", "N", "A", "G", "rds")}, "read": k, "columns_repeated": 16,
                                                         "impl_log": v, "model_log": wl},
-                                 key=dict(base, site=SITE["ll"] if nm == "tiled" else "assemble.likelihood.log_likelihood_structural_change",
+                                 key=dict(base, site={"tiled": SITE["ll"], "tiled_struct": SITE["lls"], "lla_tiled": SITE["lla"], "ped_tiled": SITE["ped"]}[nm],
                                           variant="long-locus"))
     if want is None:
         stats["undefined"] += 1
         return
-    names = list(MIX_LL)
+    names = list(MIX_LL) + [nm for nm in MIX_EMBEDDED if nm in o]
     if "ll_expand" in o:
         names += ["ll_expand", "ll_expand_ones"]
     for nm in names:
